@@ -1,6 +1,7 @@
 package conc
 
 import (
+	"errors"
 	"fmt"
 	"io"
 	"math/rand/v2"
@@ -65,35 +66,56 @@ func (c *Client) Dispose()                         { c.disposed.Store(true) }
 func (c *Client) ReplaceFilterChain(filter.Chain)  {}
 func (c *Client) Events() int64                    { return c.adds.Load() + c.removes.Load() + c.others.Load() }
 
-// GateWriter stands in for a peer connection: Write blocks while the gate is closed (a peer that stopped reading).
+// GateWriter stands in for a peer connection: Write blocks while the gate is closed (a peer that stopped reading) and
+// fails while the connection is broken (a peer that went away: broken pipe / reset).
 type GateWriter struct {
 	mu      sync.Mutex
 	cond    *sync.Cond
 	closed  bool
+	broken  bool
 	n       int64
 	blocked int64
+	failed  int64
 }
+
+// ErrPeerGone is what Write returns while the connection is broken.
+var ErrPeerGone = errors.New("write: broken pipe (peer gone)")
 
 func NewGateWriter() *GateWriter { g := &GateWriter{}; g.cond = sync.NewCond(&g.mu); return g }
 
 func (g *GateWriter) Write(b []byte) (int, error) {
 	g.mu.Lock()
-	if g.closed {
+	defer g.mu.Unlock()
+	if g.closed && !g.broken {
 		g.blocked++
 	}
-	for g.closed {
+	for g.closed && !g.broken {
 		g.cond.Wait()
 	}
+	if g.broken {
+		g.failed++
+		return 0, ErrPeerGone
+	}
 	g.n += int64(len(b))
-	g.mu.Unlock()
 	return len(b), nil
 }
 func (g *GateWriter) Block()   { g.mu.Lock(); g.closed = true; g.mu.Unlock() }
 func (g *GateWriter) Unblock() { g.mu.Lock(); g.closed = false; g.cond.Broadcast(); g.mu.Unlock() }
+
+// Break makes every Write fail from now on (writers blocked at the gate fail as well); Mend ends that.
+func (g *GateWriter) Break() { g.mu.Lock(); g.broken = true; g.cond.Broadcast(); g.mu.Unlock() }
+func (g *GateWriter) Mend()  { g.mu.Lock(); g.broken = false; g.mu.Unlock() }
 func (g *GateWriter) BlockedWrites() int64 {
 	g.mu.Lock()
 	defer g.mu.Unlock()
 	return g.blocked
+}
+
+// FailedWrites is the number of writes refused while the connection was broken.
+func (g *GateWriter) FailedWrites() int64 {
+	g.mu.Lock()
+	defer g.mu.Unlock()
+	return g.failed
 }
 
 var _ io.Writer = (*GateWriter)(nil)
